@@ -2,7 +2,7 @@
 `no_panic` belongs to C01, and to C10 for the user-file code)."""
 
 OWN = {
-    "C01": {"no_panic"},
+    "C01": {"no_panic", "borrows_are_released"},
     "C02": {"list_not_empty", "preselection_inside_list", "selection_inside_list", "auxiliary_is_the_typed_text", "auxiliary_is_the_composed_text",
             "returned_list_is_the_scratch_list", "key_appends_one_char_or_nothing", "scratch_list_belongs_to_the_text"},
     "C03": {"parts_concatenate_to_input", "splits_punctuation_word_punctuation", "three_conversions_concatenated", "transliteration_is_a_candidate"},
@@ -13,7 +13,9 @@ OWN = {
     "C08": {"suffix_forms_complete", "memo_entry_holds_direct_candidates_only"},
     "C09": {"learned_choice_is_preselected_next_time", "committing_the_preselected_candidate_changes_nothing", "other_learned_entries_survive_a_commit"},
     "C10": {"no_panic", "unreadable_store_is_treated_as_absent", "failed_save_loses_at_most_that_choice", "commit_ends_the_word"},
-    "C11": {"reloaded_context_equals_a_new_one", "reloaded_list_is_in_use"},
+    "C11": {"reloaded_context_equals_a_new_one", "reloaded_list_is_in_use", "configuration_is_replaced", "same_layout_keeps_the_method_and_its_word",
+            "changed_layout_replaces_the_method", "later_events_see_the_new_configuration", "method_matches_the_configured_layout",
+            "method_is_new_or_refreshed_by_the_update", "event_result_is_the_methods_result", "events_use_the_contexts_data", "current_method_is_last"},
     "C15": {"first_candidate_is_the_composed_text", "at_most_nine", "english_candidate_iff_enabled_and_not_ansi_and_different", "english_candidate_is_the_raw_keys",
             "non_emoji_candidates_by_distance", "no_candidate_twice", "dictionary_candidates_are_search_answers_wrapped", "pattern_is_anchored",
             "pattern_has_the_letter_class", "literal_part_has_no_regex_meta_character", "literal_part_is_the_word_without_punctuation", "wildcard_width_by_length",
